@@ -17,7 +17,7 @@ func init() { register(c19{}) }
 func (c19) ID() string    { return "C19" }
 func (c19) Level() string { return "exploration" }
 func (c19) Rule() string {
-	return "workload: every input class (generated valid files of the three formats with/without/with damaged ICC, byte-damaged files, corpus files, random bytes, signature + junk up to beyond one 4096-byte buffer, polyglots: signature of one format + another format's file, a file cut at a structure boundary followed by another file, the empty input), optionally truncated, served under a drawn delivery schedule (each failed candidate's replay stream re-segments the data for the next). Reference model: pngmeta.Load, jpegmeta.Load, webpmeta.Load in that order, each on its own FULL-delivery source over the complete bytes; the first that succeeds wins. Oracle: autometa.Load returns the model's metadata (format, dimensions, depth, ICC bytes or ICC error-ness) or (nil, error) when the model found none, and in all cases a stream that replays the complete input; runs with an injected I/O error check the replay half only. Non-trivial: autometa consumed >= 1 byte and at least two candidates ran or the input is not plainly valid; distinct = hash(input, delivery log)."
+	return "workload: every input class (generated valid files of the three formats with/without/with damaged ICC, byte-damaged files, corpus files, random bytes, signature + junk up to beyond one 4096-byte buffer, polyglots: signature of one format + another format's file, a file cut at a structure boundary followed by another file, the empty input), optionally truncated, served under a drawn delivery schedule (each failed candidate's replay stream re-segments the data for the next). Reference model: pngmeta.Load, jpegmeta.Load, webpmeta.Load in that order, each on its own FULL-delivery source over the complete bytes; the first that succeeds wins. Oracle: autometa.Load returns the model's metadata (format, dimensions, depth, ICC bytes or ICC error-ness) or (nil, error) when the model found none, and in all cases a stream that replays the complete input; runs with an injected sticky I/O error compare with the specific loaders under the same fault. Non-trivial: autometa consumed >= 1 byte and at least two candidates ran or the input is not plainly valid; distinct = hash(input, delivery log)."
 }
 func (c19) Exhaustive(string) string { return "" }
 func (c19) Runs(tier string) int64 {
@@ -32,7 +32,11 @@ var c19weights = InputWeights{Corpus: 2, Valid: 5, ICCDamaged: 2, Damaged: 4, Ra
 
 func (c19) Run(t *tape.Tape, st *Stats) *Violation {
 	st.Evals++
-	in := DrawInput(t, c19weights, []int{1, 300, 4000, 5000, 70000})
+	sizes := []int{1, 300, 4000, 5000, 70000}
+	if t.Chance(1, 150) {
+		sizes = []int{1<<20 + 4096, 2<<20 + 1} // metadata that completes beyond a megabyte
+	}
+	in := DrawInput(t, c19weights, sizes)
 	data := in.Data
 	cutNote := ""
 	if t.Chance(1, 5) && len(data) > 0 {
@@ -56,13 +60,19 @@ func (c19) Run(t *tape.Tape, st *Stats) *Violation {
 	}
 	cons := DrawConsumer(t)
 
-	// reference model
+	// reference model: the three specific loaders in order, each on its own source
+	// over the complete bytes; in runs with a (sticky, position-determined) I/O
+	// error each on its own source with the same fault
 	var model MDView
 	winner := "none"
 	tried := 0
+	mcfg := simio.Config{TruncAt: -1, ErrAt: -1}
+	if ioErr {
+		mcfg.ErrAt, mcfg.ErrSticky, mcfg.ErrWithData, mcfg.ErrID = cfg.ErrAt, true, cfg.ErrWithData, cfg.ErrID
+	}
 	for _, l := range Loaders[:3] {
 		tried++
-		r := SafeLoad(l, simio.NewSource(simio.Bytes(data), simio.Config{TruncAt: -1, ErrAt: -1}))
+		r := SafeLoad(l, simio.NewSource(simio.Bytes(data), mcfg))
 		if r.Panic != nil {
 			return &Violation{Class: "panic", Sig: l.Name + ":panic", Detail: fmt.Sprintf("%s panicked: %v", l.Name, r.Panic)}
 		}
@@ -117,9 +127,7 @@ func (c19) Run(t *tape.Tape, st *Stats) *Violation {
 		if src.ErrFired > 0 && !errors.Is(got.Err, src.Err()) {
 			return fail("replay-incomplete", fmt.Sprintf("source failed with %v but the stream ended with %v", src.Err(), got.Err))
 		}
-		if during >= cfg.ErrAt {
-			return nil // the error reached the loaders: metadata half not judged
-		}
+		// the metadata half is judged against the model under the same fault
 	} else if got.Err != nil || src.Pos() < src.End() {
 		return fail("replay-incomplete", fmt.Sprintf("stream ended (%v) after %d of %d bytes", got.Err, src.Pos(), src.End()))
 	}
